@@ -139,7 +139,10 @@ pub fn junk_ack_bytes() -> BoxedStrategy<Vec<u8>> {
 
 pub fn cfg_strategy(p: Profile, thorough: bool) -> BoxedStrategy<Cfg> {
     // a second relationship type in half of the configurations that have hierarchies
-    let inner = (cfg_strategy_inner(p, thorough), any::<bool>()).prop_map(move |(c, o)| Cfg { owners: (o || matches!(p, Profile::Related)) && c.children, ..c }).boxed();
+    let offset = prop_oneof![6 => Just(0u16), 3 => 40u16..70, 1 => 8170u16..8200];
+    let inner = (cfg_strategy_inner(p, thorough), any::<bool>(), offset)
+        .prop_map(move |(c, o, entity_offset)| Cfg { owners: (o || matches!(p, Profile::Related)) && c.children, entity_offset, ..c })
+        .boxed();
     if matches!(p, Profile::Events | Profile::Events3 | Profile::Sessions | Profile::Auth | Profile::Lossy | Profile::Split | Profile::Tracked) {
         (inner, varint_edge_start()).prop_map(|(c, st)| if c.policy == 0 { Cfg { start_tick: st, ..c } } else { c }).boxed()
     } else {
@@ -334,7 +337,7 @@ pub fn step_strategy(cfg: &Cfg, p: Profile) -> BoxedStrategy<Step> {
         (if structural { 8 } else { 4 }, (0..slots, k_strategy()).prop_map(|(slot, k)| Step::Insert { slot, k }).boxed()),
         (if structural { 8 } else { 4 }, (0..slots, k_strategy()).prop_map(|(slot, k)| Step::Remove { slot, k }).boxed()),
         (if split { 16 } else if lossy { 12 } else { 8 }, (0..slots, k_strategy()).prop_map(|(slot, k)| Step::Mutate { slot, k }).boxed()),
-        (if split { 4 } else { 0 }, (0..slots, 0u16..48).prop_map(|(slot, len)| Step::Resize { slot, len }).boxed()),
+        (if split { 4 } else { 0 }, (0..slots, prop_oneof![4 => 0u16..48, 1 => 100u16..300]).prop_map(|(slot, len)| Step::Resize { slot, len }).boxed()),
         (if split { 8 } else if lossy { 1 } else { 0 }, k_strategy().prop_map(|k| Step::MutateAll { k }).boxed()),
         (if split { 3 } else if lossy { 2 } else { 0 }, (3u8..10).prop_map(|n| Step::IdleFrames { n }).boxed()),
         (
